@@ -1,13 +1,310 @@
 (** Properties/C06.v — offset and logarithmic units convert by their defining maps and refuse
-    ambiguity.  Statements only. *)
+    ambiguity.  Statements only; proofs in Proofs/OffsetProofs.v and Proofs/LogConv.v.
+
+    Vocabulary.  [qk : quirks] selects, per finding F90-F92, the behaviour of the tree as found
+    ([as_found]) or after the proposed repair ([repaired]); every theorem below that mentions
+    [qk] holds for ALL switch values.  [offset_unit r X d o]: X is defined in r with converter
+    OffsetConverter(scale d, o), o <> 0.  [plain_unit r X d]: X is multiplicative (absolute or
+    delta).  [U1 X] is the container {X: 1}.  [plain_factor r a b = Ok f]: the multiplicative
+    conversion factor of property C02.  [nonmult_units r u]: the container's non-multiplicative
+    units with their exponents.  [refused x]: x is Err EOffset or Err EDim.
+    The logarithmic theorems (and only they) use the real numbers of the standard library. *)
+From Coq Require Import Reals.
 From PintV Require Import Model.UC Model.Eval Model.Registry Model.Offset.
-From PintV Require Import Proofs.OffsetProofs.
-From PintV Require Import Gen.Converters.
+From PintV Require Import Proofs.UCProofs Proofs.RegistryProofs Proofs.FactorProofs Proofs.OffsetProofs Proofs.LogConv.
+From PintV Require Import Gen.Converters Gen.DefaultDefs Gen.DefaultReg.
 Open Scope string_scope.
 
+(** * Tie T4: the formulas read from the converter classes are the ones the model interprets *)
 Theorem C06_tie_scale_converter : gen_scale_conv = scale_conv.
 Proof. exact tie_scale_conv. Qed.
 Theorem C06_tie_offset_converter : gen_offset_conv = offset_conv.
 Proof. exact tie_offset_conv. Qed.
 Theorem C06_tie_log_converter : gen_log_conv = log_conv.
 Proof. exact tie_log_conv. Qed.
+
+(** * The affine converters, over ANY field: mutually inverse for scale <> 0; in-place = functional *)
+Theorem C06_offset_inverse {F : Type} (rO rI : F) radd rmul rsub ropp rdiv rinv
+  (Fth : field_theory rO rI radd rmul rsub ropp rdiv rinv eq) (flog fexp : F → F) s o b f x :
+  s ≠ rO →
+  run_fun radd rsub rmul rdiv flog fexp (cc_from offset_conv)
+    (mkenv s o b f (run_fun radd rsub rmul rdiv flog fexp (cc_to offset_conv) (mkenv s o b f x))) = x
+  ∧ run_fun radd rsub rmul rdiv flog fexp (cc_to offset_conv)
+    (mkenv s o b f (run_fun radd rsub rmul rdiv flog fexp (cc_from offset_conv) (mkenv s o b f x))) = x.
+Proof. exact (offset_inverse_field rO rI radd rmul rsub ropp rdiv rinv Fth flog fexp s o b f x). Qed.
+Theorem C06_scale_inverse {F : Type} (rO rI : F) radd rmul rsub ropp rdiv rinv
+  (Fth : field_theory rO rI radd rmul rsub ropp rdiv rinv eq) (flog fexp : F → F) s o b f x :
+  s ≠ rO →
+  run_fun radd rsub rmul rdiv flog fexp (cc_from scale_conv)
+    (mkenv s o b f (run_fun radd rsub rmul rdiv flog fexp (cc_to scale_conv) (mkenv s o b f x))) = x
+  ∧ run_fun radd rsub rmul rdiv flog fexp (cc_to scale_conv)
+    (mkenv s o b f (run_fun radd rsub rmul rdiv flog fexp (cc_from scale_conv) (mkenv s o b f x))) = x.
+Proof. exact (scale_inverse_field rO rI radd rmul rsub ropp rdiv rinv Fth flog fexp s o b f x). Qed.
+Theorem C06_inplace_eq_functional {F : Type} (rO rI : F) radd rmul rsub ropp rdiv rinv
+  (Fth : field_theory rO rI radd rmul rsub ropp rdiv rinv eq) (flog fexp : F → F) s o b f x :
+  let I := run_inpl radd rsub rmul rdiv flog fexp in let E := run_fun radd rsub rmul rdiv flog fexp in
+  I (cc_to offset_conv) (mkenv s o b f x) = E (cc_to offset_conv) (mkenv s o b f x)
+  ∧ I (cc_from offset_conv) (mkenv s o b f x) = E (cc_from offset_conv) (mkenv s o b f x)
+  ∧ I (cc_to scale_conv) (mkenv s o b f x) = E (cc_to scale_conv) (mkenv s o b f x)
+  ∧ I (cc_from scale_conv) (mkenv s o b f x) = E (cc_from scale_conv) (mkenv s o b f x).
+Proof. exact (inplace_eq_functional_field radd rmul rsub rdiv flog fexp s o b f x). Qed.
+Theorem C06_log_inplace_eq_functional_any_field {F : Type} (rO rI : F) radd rmul rsub ropp rdiv rinv
+  (Fth : field_theory rO rI radd rmul rsub ropp rdiv rinv eq) (flog fexp : F → F) s o b f x :
+  flog b ≠ rO →
+  run_inpl radd rsub rmul rdiv flog fexp (cc_to log_conv) (mkenv s o b f x)
+  = run_fun radd rsub rmul rdiv flog fexp (cc_to log_conv) (mkenv s o b f x)
+  ∧ run_inpl radd rsub rmul rdiv flog fexp (cc_from log_conv) (mkenv s o b f x)
+  = run_fun radd rsub rmul rdiv flog fexp (cc_from log_conv) (mkenv s o b f x).
+Proof. exact (log_inplace_eq_functional_field rO rI radd rmul rsub ropp rdiv rinv Fth flog fexp s o b f x). Qed.
+(** the in-place twins of the model compute what the functional forms compute *)
+Theorem C06_inplace_twins qk r auto sub div a b x s d q e :
+  convert_gen qk true r auto x s d = convert_gen qk false r auto x s d
+  ∧ iadd_sub qk r auto sub a b = add_sub qk r auto sub a b
+  ∧ imul_div qk r auto div a b = mul_div qk r auto div a b
+  ∧ q_ipow qk r auto q e = q_pow qk r auto q e.
+Proof.
+  repeat split; [exact (convert_gen_inplace qk r auto x s d) | exact (iadd_sub_eq qk r auto sub a b)
+                | exact (imul_div_eq qk r auto div a b) | exact (q_ipow_eq qk r auto q e)].
+Qed.
+
+(** * Conversions between single units follow the defining maps *)
+(** degX -> degY : x |-> ((s_X x + o_X) f - o_Y) / s_Y, f the factor between the reference units *)
+Theorem C06_offset_conv_affine qk r auto inpl X Y dx ox dy oy d f x :
+  X ≠ Y → offset_unit r X dx ox → offset_unit r Y dy oy →
+  dim_of r (U1 X) = Ok d → dim_of r (U1 Y) = Ok d →
+  plain_factor r (u_ref dx) (u_ref dy) = Ok f →
+  convert_gen qk inpl r auto x (U1 X) (U1 Y) = Ok (((x * u_scale dx + ox) * f - oy) / u_scale dy)%Qc.
+Proof. exact (offset_conv_affine qk r auto inpl X Y dx ox dy oy d f x). Qed.
+(** ... and when both are defined over the same reference unit: x |-> (s_X x + o_X - o_Y) / s_Y *)
+Theorem C06_offset_conv_affine_same_reference qk r auto inpl X Y dx ox dy oy d d' x :
+  X ≠ Y → offset_unit r X dx ox → offset_unit r Y dy oy →
+  dim_of r (U1 X) = Ok d → dim_of r (U1 Y) = Ok d →
+  u_ref dx = u_ref dy → dim_of r (u_ref dx) = Ok d' →
+  convert_gen qk inpl r auto x (U1 X) (U1 Y) = Ok ((x * u_scale dx + ox - oy) / u_scale dy)%Qc.
+Proof. exact (offset_conv_affine_same_ref qk r auto inpl X Y dx ox dy oy d d' x). Qed.
+Theorem C06_offset_to_absolute qk r auto inpl X Y dx ox dy d f x :
+  offset_unit r X dx ox → plain_unit r Y dy → is_delta_name Y = false →
+  dim_of r (U1 X) = Ok d → dim_of r (U1 Y) = Ok d →
+  plain_factor r (u_ref dx) (U1 Y) = Ok f →
+  convert_gen qk inpl r auto x (U1 X) (U1 Y) = Ok ((x * u_scale dx + ox) * f)%Qc.
+Proof. exact (offset_to_plain qk r auto inpl X Y dx ox dy d f x). Qed.
+Theorem C06_absolute_to_offset qk r auto inpl X Y dx dy oy d f x :
+  plain_unit r X dx → offset_unit r Y dy oy → is_delta_name X = false →
+  dim_of r (U1 X) = Ok d → dim_of r (U1 Y) = Ok d →
+  plain_factor r (U1 X) (u_ref dy) = Ok f →
+  convert_gen qk inpl r auto x (U1 X) (U1 Y) = Ok ((x * f - oy) / u_scale dy)%Qc.
+Proof. exact (plain_to_offset qk r auto inpl X Y dx dy oy d f x). Qed.
+(** delta units (every pair of multiplicative units) convert by the scale factor only *)
+Theorem C06_delta_conv_scale_only qk r auto inpl X Y dx dy f x :
+  X ≠ Y → plain_unit r X dx → plain_unit r Y dy →
+  plain_factor r (U1 X) (U1 Y) = Ok f →
+  convert_gen qk inpl r auto x (U1 X) (U1 Y) = Ok (x * f)%Qc.
+Proof. exact (delta_conv_scale_only qk r auto inpl X Y dx dy f x). Qed.
+(** an offset unit converts neither to nor from a delta unit: DimensionalityError *)
+Theorem C06_offset_delta_refused qk r auto inpl X Y dx ox dy a b x :
+  offset_unit r X dx ox → plain_unit r Y dy → is_delta_name Y = true →
+  dim_of r (U1 X) = Ok a → dim_of r (U1 Y) = Ok b →
+  convert_gen qk inpl r auto x (U1 X) (U1 Y) = Err EDim ∧ convert_gen qk inpl r auto x (U1 Y) (U1 X) = Err EDim.
+Proof. exact (offset_delta_refused qk r auto inpl X Y dx ox dy a b x). Qed.
+(** mutually inverse and path independent (reference units: the exact units of property C02) *)
+Theorem C06_conv_offset_roundtrip qk r auto inpl X Y dx ox dy oy d d' Fa Ba Fb Bb x :
+  X ≠ Y → offset_unit r X dx ox → offset_unit r Y dy oy →
+  dim_of r (U1 X) = Ok d → dim_of r (U1 Y) = Ok d →
+  reg_nz r → exact_unit r (u_ref dx) Fa Ba → exact_unit r (u_ref dy) Fb Bb →
+  dim_of r (u_ref dx) = Ok d' → dim_of r (u_ref dy) = Ok d' →
+  (y ←r convert_gen qk inpl r auto x (U1 X) (U1 Y); convert_gen qk inpl r auto y (U1 Y) (U1 X)) = Ok x.
+Proof. exact (conv_offset_roundtrip qk r auto inpl X Y dx ox dy oy d d' Fa Ba Fb Bb x). Qed.
+Theorem C06_conv_offset_path_independent qk r auto inpl X Y Z dx ox dy oy dz oz d d' Fa Ba Fb Bb Fc Bc x :
+  X ≠ Y → Y ≠ Z → X ≠ Z → offset_unit r X dx ox → offset_unit r Y dy oy → offset_unit r Z dz oz →
+  dim_of r (U1 X) = Ok d → dim_of r (U1 Y) = Ok d → dim_of r (U1 Z) = Ok d →
+  reg_nz r → exact_unit r (u_ref dx) Fa Ba → exact_unit r (u_ref dy) Fb Bb → exact_unit r (u_ref dz) Fc Bc →
+  dim_of r (u_ref dx) = Ok d' → dim_of r (u_ref dy) = Ok d' → dim_of r (u_ref dz) = Ok d' →
+  (y ←r convert_gen qk inpl r auto x (U1 X) (U1 Y); convert_gen qk inpl r auto y (U1 Y) (U1 Z))
+  = convert_gen qk inpl r auto x (U1 X) (U1 Z).
+Proof. exact (conv_offset_path_independent qk r auto inpl X Y Z dx ox dy oy dz oz d d' Fa Ba Fb Bb Fc Bc x). Qed.
+
+(** * Logarithmic converter over the real numbers (standard-library real-number assumptions) *)
+Theorem C06_log_inverse (s b f : R) : (0 < s)%R → (0 < b)%R → b ≠ 1%R → f ≠ 0%R →
+  (∀ x, runR (cc_from log_conv) (envR s b f (runR (cc_to log_conv) (envR s b f x))) = x)
+  ∧ (∀ v, (0 < v)%R → runR (cc_to log_conv) (envR s b f (runR (cc_from log_conv) (envR s b f v))) = v).
+Proof. exact (log_inverse s b f). Qed.
+Theorem C06_log_inplace_eq_functional (s b f x : R) : (0 < b)%R → b ≠ 1%R →
+  runRi (cc_to log_conv) (envR s b f x) = runR (cc_to log_conv) (envR s b f x)
+  ∧ runRi (cc_from log_conv) (envR s b f x) = runR (cc_from log_conv) (envR s b f x).
+Proof. exact (log_inplace_eq_functional s b f x). Qed.
+Theorem C06_log_to_log_roundtrip (s1 b1 f1 s2 b2 f2 k x : R) :
+  (0 < s1)%R → (0 < b1)%R → b1 ≠ 1%R → f1 ≠ 0%R → (0 < s2)%R → (0 < b2)%R → b2 ≠ 1%R → f2 ≠ 0%R → (0 < k)%R →
+  let fwd x := runR (cc_from log_conv) (envR s2 b2 f2 (runR (cc_to log_conv) (envR s1 b1 f1 x) * k)%R) in
+  let bwd y := runR (cc_from log_conv) (envR s1 b1 f1 (runR (cc_to log_conv) (envR s2 b2 f2 y) * / k)%R) in
+  bwd (fwd x) = x.
+Proof. exact (log_to_log_roundtrip s1 b1 f1 s2 b2 f2 k x). Qed.
+
+(** * Addition and subtraction: the seven-branch code equals the decision table *)
+(** For every registry, mode, operator and pair of operands (any containers): with the classes
+    [classify] computes (Mult | Delta | Offset u | Mixed | Ambiguous) the result of [_add_sub] is
+    the one the table row prescribes; rows marked RRefuse end in OffsetUnitCalculusError or
+    DimensionalityError, never in a value.  (Mixed = an offset unit beside delta units in one
+    container: undocumented, no claim.)  [delta_mult r n]: the unit named delta_n is multiplicative. *)
+Theorem C06_add_sub_table qk r auto sub xa ua xb ub d nma nmb :
+  dim_of r ua = Ok d → dim_of r ub = Ok d →
+  nonmult_units r ua = Ok nma → nonmult_units r ub = Ok nmb →
+  (∀ n, single_order1 nma = Some n → delta_mult r n) →
+  (∀ n, single_order1 nmb = Some n → delta_mult r n) →
+  let ca := classify qk r nma ua in
+  let cb := classify qk r nmb ub in
+  let cab := match ca with KOffset n _ => has_compatible_delta qk r ub n | _ => false end in
+  let cba := match cb with KOffset n _ => has_compatible_delta qk r ua n | _ => false end in
+  let w := offset_table sub ca cb cab cba in
+  match w with
+  | RUndocumented => True
+  | RRefuse => refused (add_sub qk r auto sub (OQty xa ua) (OQty xb ub)).2
+  | _ => (add_sub qk r auto sub (OQty xa ua) (OQty xb ub)).2 = row_result qk r auto sub w xa ua xb ub
+  end.
+Proof. exact (add_sub_table qk r auto sub xa ua xb ub d nma nmb). Qed.
+(** the documented rows on single units, with their values *)
+Theorem C06_offset_minus_offset_is_delta qk r auto X Y dx ox dy oy d xa xb :
+  offset_unit r X dx ox → offset_unit r Y dy oy → delta_mult r X → delta_mult r Y →
+  dim_of r (U1 X) = Ok d → dim_of r (U1 Y) = Ok d →
+  (add_sub qk r auto true (OQty xa (U1 X)) (OQty xb (U1 Y))).2
+  = (y ←r convert qk r auto xb (U1 Y) (U1 X); Ok ((xa - y)%Qc, U1 ("delta_" ++ X)))
+  ∧ refused (add_sub qk r auto false (OQty xa (U1 X)) (OQty xb (U1 Y))).2.
+Proof. exact (offset_minus_offset qk r auto X Y dx ox dy oy d xa xb). Qed.
+Theorem C06_offset_and_absolute qk r auto X Y dx ox dy d xa xb :
+  offset_unit r X dx ox → plain_unit r Y dy → is_delta_name Y = false → delta_mult r X →
+  dim_of r (U1 X) = Ok d → dim_of r (U1 Y) = Ok d →
+  (add_sub qk r auto true (OQty xa (U1 X)) (OQty xb (U1 Y))).2
+  = (y ←r convert qk r auto xb (U1 Y) (U1 X); Ok ((xa - y)%Qc, U1 ("delta_" ++ X)))
+  ∧ refused (add_sub qk r auto false (OQty xa (U1 X)) (OQty xb (U1 Y))).2
+  ∧ (add_sub qk r auto true (OQty xb (U1 Y)) (OQty xa (U1 X))).2
+    = (y ←r convert qk r auto xa (U1 X) (U1 Y); Ok ((xb - y)%Qc, U1 Y))
+  ∧ refused (add_sub qk r auto false (OQty xb (U1 Y)) (OQty xa (U1 X))).2.
+Proof. exact (offset_and_absolute qk r auto X Y dx ox dy d xa xb). Qed.
+Theorem C06_offset_pm_delta_is_offset qk r auto sub X D dx ox dd d xa xb :
+  offset_unit r X dx ox → plain_unit r D dd → is_delta_name D = true → delta_mult r X →
+  has_compatible_delta qk r (U1 D) X = true →
+  dim_of r (U1 X) = Ok d → dim_of r (U1 D) = Ok d →
+  (add_sub qk r auto sub (OQty xa (U1 X)) (OQty xb (U1 D))).2
+  = (y ←r convert qk r auto xb (U1 D) (U1 ("delta_" ++ X)); Ok (aop2 sub xa y, U1 X))
+  ∧ (add_sub qk r auto sub (OQty xb (U1 D)) (OQty xa (U1 X))).2
+  = (y ←r convert qk r auto xb (U1 D) (U1 ("delta_" ++ X)); Ok (aop2 sub y xa, U1 X)).
+Proof. exact (offset_pm_delta qk r auto sub X D dx ox dd d xa xb). Qed.
+
+(** * Multiplication, division, powers *)
+(** quantity (op) quantity: an operand holding an offset unit is refused unless its container is
+    exactly {offset unit: 1} and autoconvert is on; then it is replaced by its root-unit value *)
+Theorem C06_muldiv_table qk r auto div xa ua xb ub nma nmb :
+  nonmult_units r ua = Ok nma → nonmult_units r ub = Ok nmb →
+  (mul_div qk r auto div (OQty xa ua) (OQty xb ub)).2
+  = spec_mul_div qk r auto div (mclassify nma ua) (mclassify nmb ub) (xa, ua) (xb, ub).
+Proof. exact (muldiv_table qk r auto div xa ua xb ub nma nmb). Qed.
+(** quantity (op) number and number * quantity: only autoconvert multiplication, and it keeps the unit *)
+Theorem C06_mul_number_table qk r auto div xa ua y nma :
+  nonmult_units r ua = Ok nma →
+  (mul_div qk r auto div (OQty xa ua) (ONum y)).2 = spec_mul_num auto div (mclassify nma ua) (xa, ua) y
+  ∧ (mul_div qk r auto false (ONum y) (OQty xa ua)).2 = spec_mul_num auto false (mclassify nma ua) (xa, ua) y.
+Proof. exact (mul_num_table qk r auto div xa ua y nma). Qed.
+Theorem C06_number_div_table qk r auto y xb ub nmb :
+  nonmult_units r ub = Ok nmb →
+  (mul_div qk r auto true (ONum y) (OQty xb ub)).2
+  = (b' ←r mprep qk r auto (mclassify nmb ub) (xb, ub); m ←r mop2 true y b'.1; Ok (m, uc_inv b'.2)).
+Proof. exact (rdiv_table qk r auto y xb ub nmb). Qed.
+Theorem C06_pow_table qk r auto q e nm :
+  nonmult_units r q.2 = Ok nm →
+  (q_pow qk r auto q e).2 =
+    if (e =? 1)%Z then Ok q
+    else if (e =? 0)%Z then Ok (1%Qc, ∅)
+    else match nm with
+         | [] => pow_plain q e
+         | _ => if auto then (q' ←r to_root qk r auto q; pow_plain q' e) else Err EOffset
+         end.
+Proof. exact (pow_table qk r auto q e nm). Qed.
+
+(** * Refusal of ambiguity *)
+Theorem C06_refuse_ambiguity_add_sub qk r auto sub xa ua xb ub d nma nmb :
+  dim_of r ua = Ok d → dim_of r ub = Ok d →
+  nonmult_units r ua = Ok nma → nonmult_units r ub = Ok nmb →
+  (∀ n, single_order1 nma = Some n → delta_mult r n) →
+  (∀ n, single_order1 nmb = Some n → delta_mult r n) →
+  offset_table sub (classify qk r nma ua) (classify qk r nmb ub)
+    (match classify qk r nma ua with KOffset n _ => has_compatible_delta qk r ub n | _ => false end)
+    (match classify qk r nmb ub with KOffset n _ => has_compatible_delta qk r ua n | _ => false end) = RRefuse →
+  refused (add_sub qk r auto sub (OQty xa ua) (OQty xb ub)).2.
+Proof. exact (refuse_add_sub qk r auto sub xa ua xb ub d nma nmb). Qed.
+Theorem C06_refuse_dimension_mismatch qk r auto sub xa ua xb ub da db nma nmb :
+  dim_of r ua = Ok da → dim_of r ub = Ok db → da ≠ db →
+  nonmult_units r ua = Ok nma → nonmult_units r ub = Ok nmb →
+  (add_sub qk r auto sub (OQty xa ua) (OQty xb ub)).2 = Err EDim.
+Proof. exact (refuse_add_sub_dim qk r auto sub xa ua xb ub da db nma nmb). Qed.
+Theorem C06_refuse_ambiguity_mul_div qk r auto div xa ua xb ub nma nmb :
+  nonmult_units r ua = Ok nma → nonmult_units r ub = Ok nmb →
+  mclassify nma ua = MCAmbig ∨ (mclassify nmb ub = MCAmbig ∧ mclassify nma ua = MCMult)
+  ∨ (auto = false ∧ (nma ≠ [] ∨ (nma = [] ∧ nmb ≠ []))) →
+  (mul_div qk r auto div (OQty xa ua) (OQty xb ub)).2 = Err EOffset.
+Proof. exact (refuse_mul_div qk r auto div xa ua xb ub nma nmb). Qed.
+
+(** * Non-vacuity on the registry regenerated from /repo (finite checks by computation) *)
+(** degC, degF are offset units in the sense of the hypotheses above; kelvin and delta_degC are
+    plain; every offset unit has its automatic delta_ unit (same scale and reference,
+    ScaleConverter); delta_degC is multiplicative *)
+Example C06_default_registry_units :
+  offset_unitb default_reg degC && offset_unitb default_reg degF && plain_unitb default_reg kel
+  && plain_unitb default_reg ddegC && deltas_okb default_reg
+  && negb (is_nm default_reg ("delta_" ++ degC)) = true.
+Proof. exact ex_units. Qed.
+Example C06_default_registry_offset_unit_hypotheses :
+  (∃ d o, offset_unit default_reg degC d o) ∧ (∃ d o, offset_unit default_reg degF d o)
+  ∧ (∃ d, plain_unit default_reg kel d) ∧ delta_mult default_reg degC.
+Proof. exact ex_hyps. Qed.
+(** 10 degC = 50 degF = 283.15 K; 10 delta_degC = 18 delta_degF; ito agrees; degC -> delta_degC refused *)
+Example C06_default_registry_conversions :
+  n_is (convert as_found default_reg false (mkq 10 1) (U1 degC) (U1 degF)) (mkq 50 1)
+  && n_is (convert as_found default_reg false (mkq 10 1) (U1 degC) (U1 kel)) (mkq 5663 20)
+  && n_is (convert as_found default_reg false (mkq 10 1) (U1 ddegC) (U1 ddegF)) (mkq 18 1)
+  && n_is (iconvert as_found default_reg false (mkq 50 1) (U1 degF) (U1 degC)) (mkq 10 1)
+  && err_is (convert as_found default_reg false (mkq 10 1) (U1 degC) (U1 ddegC)) EDim = true.
+Proof. exact ex_conv. Qed.
+(** the rows of docs/user/nonmult.rst: 10 degC - 5 degC = 5 delta_degC; 10 degC + 5 delta_degC = 15 degC;
+    degC + degC, degC + kelvin, degC * 2 raise; with autoconvert degC * 2 = 20 degC,
+    10 degC * 2 m = 566.3 K m, degC ** 2 raises without autoconvert, (10 degC) ** -1 = 1/283.15 K *)
+Example C06_default_registry_table_rows :
+  q_is (add_sub as_found default_reg false true (OQty (mkq 10 1) (U1 degC)) (OQty (mkq 5 1) (U1 degC))).2 (mkq 5 1) (U1 ddegC)
+  && q_is (add_sub as_found default_reg false false (OQty (mkq 10 1) (U1 degC)) (OQty (mkq 5 1) (U1 ddegC))).2 (mkq 15 1) (U1 degC)
+  && err_is (add_sub as_found default_reg false false (OQty (mkq 10 1) (U1 degC)) (OQty (mkq 5 1) (U1 degC))).2 EOffset
+  && err_is (add_sub as_found default_reg false false (OQty (mkq 10 1) (U1 degC)) (OQty (mkq 5 1) (U1 kel))).2 EOffset
+  && err_is (mul_div as_found default_reg false false (OQty (mkq 10 1) (U1 degC)) (ONum (mkq 2 1))).2 EOffset
+  && q_is (mul_div as_found default_reg true false (OQty (mkq 10 1) (U1 degC)) (ONum (mkq 2 1))).2 (mkq 20 1) (U1 degC)
+  && q_is (mul_div as_found default_reg true false (OQty (mkq 10 1) (U1 degC)) (OQty (mkq 2 1) (U1 "meter"))).2
+          (mkq 5663 10) (mkuc [(kel, mkq 1 1); ("meter", mkq 1 1)])
+  && err_is (q_pow as_found default_reg false (mkq 10 1, U1 degC) 2).2 EOffset
+  && q_is (q_pow as_found default_reg true (mkq 10 1, U1 degC) (-1)).2 (mkq 20 5663) (mkuc [(kel, mkq (-1) 1)]) = true.
+Proof. exact ex_table. Qed.
+
+(** * The findings: the faithful model ([as_found]) violates the property, the repaired one does not *)
+(** F90  offset + delta is refused when the delta unit's offset unit is defined over another
+    reference unit (degW = 3/2 degR; offset 10):  1 degC + 6 delta_degW raises, 1 degC - 6 delta_degW
+    raises; repaired: 6 degC.  The guarded statement is [C06_offset_pm_delta_is_offset] (hypothesis
+    [has_compatible_delta ... = true]). *)
+Theorem C06_offset_pm_delta_refuted :
+  offset_unitb reg_W degC && plain_unitb reg_W "delta_degW"
+  && match dim_of reg_W (U1 degC), dim_of reg_W (U1 "delta_degW") with Ok a, Ok b => uc_eqb a b | _, _ => false end
+  && err_is (add_sub as_found reg_W false false (OQty (mkq 1 1) (U1 degC)) (OQty (mkq 6 1) (U1 "delta_degW"))).2 EOffset
+  && err_is (add_sub as_found reg_W false true (OQty (mkq 1 1) (U1 degC)) (OQty (mkq 6 1) (U1 "delta_degW"))).2 EDim
+  && q_is (add_sub repaired reg_W false false (OQty (mkq 1 1) (U1 degC)) (OQty (mkq 6 1) (U1 "delta_degW"))).2 (mkq 6 1) (U1 degC) = true.
+Proof. exact ex_F90. Qed.
+(** F91  autoconvert: 10 degC*m -> degF*inch gives 50, the same number as -> degF*m (the length
+    unit is ignored); repaired: the inch is accounted for.  Without autoconvert: refused. *)
+Theorem C06_compound_conversion_refuted :
+  n_is (convert as_found default_reg true (mkq 10 1) degC_m degF_in) (mkq 50 1)
+  && n_is (convert as_found default_reg true (mkq 10 1) degC_m degF_m) (mkq 50 1)
+  && n_is (convert repaired default_reg true (mkq 10 1) degC_m degF_in) (mkq 248997191 12700)
+  && n_is (convert repaired default_reg true (mkq 10 1) degC_m degF_m) (mkq 50 1)
+  && err_is (convert as_found default_reg false (mkq 10 1) degC_m degF_in) EDim = true.
+Proof. exact ex_F91. Qed.
+(** F92  10 dBm - 4 dBm = 6 "delta_decibelmilliwatt", a unit that does not exist; repaired: refused
+    like 10 dBm + 4 dBm *)
+Theorem C06_log_difference_refuted :
+  q_is (add_sub as_found default_reg false true (OQty (mkq 10 1) (U1 dBm)) (OQty (mkq 4 1) (U1 dBm))).2 (mkq 6 1) (U1 ("delta_" ++ dBm))
+  && bool_decide (r_units default_reg !! ("delta_" ++ dBm) = None)
+  && err_is (add_sub repaired default_reg false true (OQty (mkq 10 1) (U1 dBm)) (OQty (mkq 4 1) (U1 dBm))).2 EOffset
+  && err_is (add_sub as_found default_reg false false (OQty (mkq 10 1) (U1 dBm)) (OQty (mkq 4 1) (U1 dBm))).2 EOffset = true.
+Proof. exact ex_F92. Qed.
